@@ -113,6 +113,34 @@ def printed_seqs(res):
     return [p["seq"] for p in res.printed if isinstance(p, dict) and "seq" in p]
 
 
+def apalache_inductive_lifecycle():
+    """vlib.run_apalache_inductive on spec/LifecycleInd.tla.  Apalache sees a scratch copy of spec/ in which (a) the
+    CommunityModules module Json (not typable by Apalache; used only by the Export* operators) is replaced by the typed
+    stub spec/apalache_stubs/Json.tla and (b) the two constant-level ASSUMEs of Lifecycle.tla about the alphabet (833
+    letters x three readings; TLC evaluates them on every run, Apalache needs > 10 min for them) are dropped.  Init,
+    Next (the actions) and the invariant are untouched."""
+    import re, shutil
+    d = vlib.scratch("apaspec-")
+    for f in os.listdir(vlib.SPEC):
+        if f.endswith(".tla"):
+            shutil.copy(os.path.join(vlib.SPEC, f), d)
+    stubs = os.path.join(vlib.SPEC, "apalache_stubs")
+    for f in os.listdir(stubs):
+        shutil.copy(os.path.join(stubs, f), d)
+    lp = os.path.join(d, "Lifecycle.tla")
+    txt = open(lp).read()
+    txt, n = re.subn(r"(?m)^ASSUME .*\n(?:[ \t]+\S.*\n)*", "", txt)
+    if n != 2:
+        raise vlib.MachineryError("Lifecycle.tla: expected 2 ASSUMEs about the alphabet, found %d" % n)
+    open(lp, "w").write(txt)
+    old = vlib.SPEC
+    vlib.SPEC = d
+    try:
+        return vlib.run_apalache_inductive("LifecycleInd", "CInit", "IndInit", "IndInv", timeout=600)
+    finally:
+        vlib.SPEC = old
+
+
 def run(tier, seed, replay):
     v = vlib.Verdict(PID, tier, seed)
     v.assumptions = [
@@ -176,6 +204,15 @@ def run(tier, seed, replay):
             raise vlib.MachineryError("table graph: %d nodes, %d rows exported" % (nnodes, nrows))
         counts.update(table_states=nnodes, table_cells=ncells, cover_walks=len(walks), letters=len(carried),
                       letters_by_presentation={k: sum(1 for a in carried if a[4] == k) for k in sorted({a[4] for a in carried})})
+
+        # 1b. unbounded in the number of messages: Apalache discharges the inductive invariant of the joint machine
+        # (LifecycleInd.tla: the 19 rows of the table as three implications + "the last step broke no clause") over the
+        # FULL alphabet, without TLC's VIEW.  ~2 min: thorough tier only.
+        if tier == "thorough":
+            ra = apalache_inductive_lifecycle()
+            v.cov.setdefault("apalache_inductive", []).append(ra)
+            if ra["status"] == "refuted":
+                raise vlib.MachineryError("LifecycleInd: IndInv is not inductive (%s)" % ra.get("detail"))
 
         # 2. all core sequences of the bounded length: design check on every step + export
         cfg = "Lifecycle_seq%d.cfg" % seqlen
